@@ -35,9 +35,13 @@ fn status_char(o: &Result<Outcome, String>) -> char {
 /// One row of statuses for `label` (one char per problem of `probs`).
 fn row(rng: &mut Rng, af: &AAFramework<usize>, label: usize, probs: &[(&str, &str)], cert: bool) -> String {
     let mut s = String::new();
+    let heavy = crate::statics::max_defender_product(af) > 600;
     for (sem, q) in probs.iter() {
         let encs = encoders_for(sem, q);
-        let enc = *rng.pick(&encs);
+        let mut enc = *rng.pick(&encs);
+        // the exp encoder is exponential in the product of the defender-set sizes (a performance matter
+        // outside the properties; one thorough run spent 30 minutes in a single such encoding)
+        if enc == "exp_co" && heavy { enc = "hyb_co"; }
         let r = guarded(|| run_query(af, sem, q, cert, enc, &[label], default_factory()));
         s.push(status_char(&r));
     }
@@ -202,12 +206,16 @@ pub fn run_cross(rng: &mut Rng, count: usize, thorough: bool, extra: &[String], 
         write_build(out, &g.build);
         let before = frame_digest(&af);
         let small_for_external = af.n_arguments() <= 6 && crate::statics::max_defender_product(&af) <= 16;
+        let heavy_for_exp = crate::statics::max_defender_product(&af) > 5000;
         let live: Vec<usize> = af.argument_set().iter().map(|a| *a.label()).collect();
         // (a) every configuration of every problem on one argument
         let arg = *rng.pick(&live);
         for (sem, q) in crate::statics::PROBLEMS.iter() {
             let args: Vec<usize> = if *q == "SE" { vec![] } else { vec![arg] };
             for enc in encoders_for(sem, q) {
+                // the exp encoder is exponential in the product of the defender-set sizes (performance,
+                // outside the properties): left out on the few frameworks where one encoding takes minutes
+                if enc == "exp_co" && heavy_for_exp { continue; }
                 for cert in [false, true] {
                     if *q == "SE" && cert {
                         continue;
@@ -229,7 +237,8 @@ pub fn run_cross(rng: &mut Rng, count: usize, thorough: bool, extra: &[String], 
         for sem in ["GR", "CO", "ST", "PR", "SST", "STG", "ID"] {
             let supported: Vec<&str> = crate::statics::PROBLEMS.iter().filter(|(s, _)| *s == sem).map(|(_, q)| *q).collect();
             let encs = encoders_for(sem, "DS");
-            let enc = *rng.pick(&encs);
+            let mut enc = *rng.pick(&encs);
+            if enc == "exp_co" && heavy_for_exp { enc = "hyb_co"; }
             let len = rng.range(4, 8);
             let mut qs: Vec<Q> = Vec::new();
             for _ in 0..len {
